@@ -116,4 +116,12 @@ func init() {
 			Bounds:  "skeleton sig (120 methods) x 2^3 option valuations (reverse only with :style arg, as enforced at notation parsing)",
 			Assumes: []string{aT}})
 	}
+
+	// ---------------------------------------------------------------- C04 / C16 / C01 / C05 type matrix (mode T)
+	whatMatrix := "real CreateFunction (structToStruct, matchStructFieldAndStruct, structFieldAndStructGettersAndFields, sliceToSlice, castNode, NewTypecast, TypeName) + FuncToString on the 35x35 type-pair matrix of skeleton types (basic, named basic local/imported with and without String(), structs local same/different shape, empty, imported with unexported members, anonymous, pointers, pointer-to-pointer, slices of basic/named/struct/pointer/slice/string/interface/imported struct, map, interface, error, func, chan, array) with :stringer/:typecast/:getter/:case and the match rule symbolic: for every same-named field pair the decision (plain / String() / conversion / fresh slice copy / converting slice copy / member-wise / no match + warning) equals the reference matcher written from the statement of C04 on go/types facts; every destination field is accounted for at most once; every no-match is warned on stderr; the emitted function TYPE-CHECKS in the package"
+	for _, pr := range []string{"C04", "C16", "C01", "C05"} {
+		reg(&HarnessSpec{Prop: pr, Name: "C04Matrix", What: whatMatrix,
+			Bounds:  "skeleton types: 35 destination structs x 35 source field types x all toggle valuations",
+			Assumes: []string{aT, "reference matcher: a convertible pair whose target type convergen cannot spell (unnamed composite) may be reported as no match", "the Go type checker is the judge of 'compiles'"}})
+	}
 }
